@@ -275,6 +275,7 @@ class Harness:
             self.elems[k] = [self.fresh(k) for _ in range(n)]
         self.x = make_matrix(self.fam, self.elems, self.present, self.dup)
         self.trace = []
+        self.ancestors = []
 
     def fresh(self, k, none=()):
         eid = self.next_id[k]
@@ -283,6 +284,26 @@ class Harness:
 
     def axis_of(self, k):
         return self.fam.kinds.index(k)
+
+    def adopt_result(self, res):
+        """a non-mutating operation produced `res` from the live matrix: the old matrix stays alive as an operand that
+        later operations on the result must not disturb (results may share label arrays with their operands)"""
+        self.ancestors.append((self.x, full_state(self.fam, self.x), dict(self.elems)))
+        self.ancestors = self.ancestors[-3:]
+        self.x = res
+
+    def mutate_live(self, do, y, where):
+        """`do(target)` was applied to a deep copy `y`; apply it to the live object as well (so that aliasing with earlier
+        operands becomes observable) and require the same resulting state"""
+        _, err = do(self.x)
+        self.ctx.check(err is None and not state_diff(full_state(self.fam, y), full_state(self.fam, self.x)), "mutation_not_deterministic",
+                       lambda: "%s: second application on the live object: %r" % (where, err))
+
+    def check_ancestors(self, where):
+        for (obj, snap, _) in self.ancestors:
+            bad = state_diff(snap, full_state(self.fam, obj))
+            self.ctx.check(not bad, "earlier_operand_changed_by_later_operation",
+                           lambda: "%s: a matrix that was the operand of an earlier non-mutating operation changed in fields %s" % (where, bad))
 
     # -------------------------------------------------------------------------------------------------------------
     def verify(self, x, elems, where):
@@ -414,7 +435,8 @@ class Harness:
             new_elems[k] = [self.elems[k][int(i)] for i in kept]
             self.verify(res, new_elems, where)
             ctx.check(res.mat is not x.mat, "result_aliases_receiver_data", where)
-            self.x, self.elems = res, new_elems
+            self.adopt_result(res)
+            self.elems = new_elems
             self.reordered_since_group = dict(self.reordered_since_group)
             self.reordered_since_group[k] = False
             return
@@ -504,7 +526,11 @@ class Harness:
             new_elems = dict(self.elems)
             new_elems[k] = [self.elems[k][i] if i >= 0 else new[-1 - i] for i in [int(q) for q in idm]]
             self.verify(res, new_elems, where)
-            self.x, self.elems = res, new_elems
+            if mutating:
+                self.mutate_live(lambda t: specific(t, op), res, where)
+            else:
+                self.adopt_result(res)
+            self.elems = new_elems
             self.reordered_since_group = dict(self.reordered_since_group)
             self.reordered_since_group[k] = False
             return
@@ -532,7 +558,8 @@ class Harness:
             new_elems = dict(self.elems)
             new_elems[k] = [self.elems[k][int(i)] for i in kept]
             self.verify(y, new_elems, where)
-            self.x, self.elems = y, new_elems
+            self.mutate_live(lambda t: self.call(getattr(t, "remove_" + k), obj), y, where)
+            self.elems = new_elems
             self.reordered_since_group = dict(self.reordered_since_group)
             self.reordered_since_group[k] = False
             return
@@ -559,7 +586,8 @@ class Harness:
                 self.reordered_since_group[k] = True
                 ctx.label("reorder_after_group")
             self.verify(y, new_elems, where)
-            self.x, self.elems = y, new_elems
+            self.mutate_live(lambda t: self.call(getattr(t, "reorder_" + k), obj), y, where)
+            self.elems = new_elems
             return
 
         if op in ("sort", "group", "ungroup"):
@@ -573,7 +601,7 @@ class Harness:
                 _, gerr = self.call(z.ungroup, axis=axarg)
                 ctx.check(gerr is None and not state_diff(full_state(fam, y), full_state(fam, z)), "generic_differs_from_specific", lambda: "%s: %r" % (where, gerr))
                 self.verify(y, self.elems, where)
-                self.x = y
+                self.mutate_live(lambda t: self.call(getattr(t, "ungroup_" + k)), y, where)
                 self.reordered_since_group = dict(self.reordered_since_group)
                 self.reordered_since_group[k] = False
                 return
@@ -637,7 +665,8 @@ class Harness:
                           lambda: "%s: is_grouped=%s but %s present=%s" % (where, getattr(y, "is_grouped_" + k)(), lab, self.present[lab]))
                 ctx.label("grouped_with_labels", self.present[lab])
             self.verify(y, new_elems, where)
-            self.x, self.elems = y, new_elems
+            self.mutate_live((lambda t: self.call(getattr(t, "%s_%s" % (op, k)), keys_arg)) if op == "sort" else (lambda t: self.call(getattr(t, "%s_%s" % (op, k)))), y, where)
+            self.elems = new_elems
             return
         raise AssertionError(op)
 
@@ -656,6 +685,7 @@ def check_program(case, ctx):
         ops.append(stp["op"])
         # invariant after every step on the live matrix
         h.verify(h.x, h.elems, "after step %d (%s)" % (sno, stp["op"]))
+        h.check_ancestors("after step %d (%s)" % (sno, stp["op"]))
     hist = [s["op"] for s in case["steps"]]
     ctx.label("sort_after_append", any(a in ("append", "incorp", "adjoin", "insert", "concat") and b in ("sort", "group") for a, b in zip(hist, hist[1:])))
     ctx.label("op_after_group", any(a == "group" for a in hist[:-1]))
